@@ -7,22 +7,35 @@ from common import sh2
 
 LEVEL = "proof"
 MANIFEST = {
-    "technique": "Coq proof over a hand-written Gallina model of the box codec (header, container recursion, unknown boxes, "
-                 "38 leaf box types) + differential correspondence (extracted OCaml vs Go) + failing-input search on all "
-                 "registered box types",
+    "technique": "Coq proof over a hand-written Gallina model of the box codec (header, container recursion, prefixed containers "
+                 "stsd/dref/sample entries, unknown boxes, 46 leaf box types, the box loop of a file) + differential correspondence "
+                 "(extracted OCaml vs Go) + failing-input search on all registered box types whose mutant failures are labelled "
+                 "by the model's proved-complete reasons",
     "level_text": "PROOF for the modelled universe (coq/c01/C01Theorems.v): header round trip both ways; for each of the leaf "
-                  "kinds ftyp styp free skip mdat mfhd tfhd tfdt trun mvhd tkhd sidx trex mdhd hdlr stts stsc stsz stco co64 stss sdtp ctts elst saiz saio sbgp prft tenc frma vmhd smhd nmhd sthd mfro mehd tfra pssh, everything the "
-                  "decoder accepts is reproduced from the decoded value plus the captured reserved bytes (C01_leaf_lossless_*); "
-                  "C01_tree: every slice accepted by the model of DecodeBoxSR (generic/typed pure containers moov trak mdia minf "
-                  "stbl moof traf mvex dinf edts udta sinf schi mfra tref, unknown boxes, the leaves above, any nesting) whose "
-                  "tree is exact re-encodes bit for bit; the excluded shapes are witnessed by *_refuted theorems. EXPLORATION "
-                  "for every other registered box type (all ~150 of them reached through harvested testdata boxes, hand-written "
-                  "seeds and mutations): masked byte equality, second decode, third encode on the real implementation.",
+                  "kinds ftyp styp free skip mdat mfhd tfhd tfdt trun mvhd tkhd sidx trex mdhd hdlr stts stsc stsz stco co64 stss sdtp "
+                  "ctts elst saiz saio sbgp prft tenc frma vmhd smhd nmhd sthd mfro mehd tfra pssh url avcC btrt pasp colr clap schm cslg "
+                  "and the field prefixes of stsd, dref, VisualSampleEntry (avc1 avc3 hvc1 hev1 encv av01 vp08 vp09) and AudioSampleEntry "
+                  "(mp4a enca ac-3 ec-3), everything the decoder accepts is reproduced from the decoded value plus the captured bytes "
+                  "(C01_leaf_lossless_*, C01_leaf_table, C01_pre_table); C01_tree: every slice accepted by the model of DecodeBoxSR "
+                  "(pure containers moov trak mdia minf stbl moof traf mvex dinf edts udta sinf schi mfra tref, prefixed containers, unknown "
+                  "boxes, the leaves above, any nesting) whose tree is exact re-encodes bit for bit; C01_file_tree: the same for a "
+                  "concatenation of top-level boxes (box loop of DecodeFileSR, File.Encode in box-tree mode); C01_why_complete / "
+                  "C01_explained: the model's list of reasons for not reproducing an input (why_box) is complete -- no reason, then the "
+                  "Go encoders' bytes ARE the input; C01_fixpoint_partial / C01_file_boxtree_partial: decode(encode(x)) is a fixed point "
+                  "for inputs whose reserved bytes already have the encoder's values (the general fixed point is explored, not proved); "
+                  "every excluded shape / defect class is witnessed by a *_refuted theorem; complete real files (an init segment and a "
+                  "media segment of /repo testdata) decode inside Coq, are exact and re-encode to themselves (C01_real_*). EXPLORATION "
+                  "for every other registered box type (all ~150 reached through harvested testdata boxes, hand-written seeds, "
+                  "structured valid variants -- esds descriptor orders and size encodings, sample-entry child orders, sgpd/uuid variants -- "
+                  "and mutations): masked byte equality, second decode, third encode on the real implementation.",
     "level_note": "Trusted: Coq kernel, extraction, OCaml/Go glue, the hand transcription of the Go text into C01Model.v (tied to "
                   "/repo by the correspondence run on every check), the scanner and generators of the harness. The model follows "
-                  "the SliceReader path; reader-path differences are counted, not modelled (C03). C01_fixpoint is explored on the "
-                  "implementation, not proved. c01_dontcare.json: entries with source=model are regenerated from the model on "
-                  "every run; source=hand entries (ISO reserved fields of unmodelled boxes) are hand-written.",
+                  "the SliceReader path; reader-path differences are counted, not modelled (C03). Not modelled: esds descriptors, hvcC, "
+                  "senc, sgpd, uuid, emsg, subs, elng, kind, wvtt, stpp, meta/ilst (explored only); the File-level acceptance checks of "
+                  "DecodeFileSR (moov stts chain, mdat placement, senc parsing). c01_dontcare.json: entries with source=model are "
+                  "regenerated from the model (rsv_dc marks which captured chunks are ISO reserved) on every run; source=hand entries are "
+                  "hand-written. Search failures of mutants made of modelled types are labelled with the model's reason (a failing mutant "
+                  "without a reason is a violation); for other types the class only says how the output differs.",
 }
 
 DONTCARE = os.path.join(common.ROOT, "c01_dontcare.json")
@@ -30,6 +43,14 @@ WHAT = {("mvhd", 70): "reserved(10) + matrix(36) + pre_defined(24)", ("tkhd", 4)
         ("tkhd", 38): "reserved(2) + matrix(36)", ("sidx", 2): "reserved(2)", ("mdhd", 2): "pre_defined(2)",
         ("hdlr", 12): "reserved(12)", ("smhd", 2): "reserved(2)", ("tenc", 2): "reserved(8) reserved(8)",
         ("tenc", 1): "reserved(8)", ("tfra", 3): "reserved(26): the three bytes that are entirely reserved"}
+
+
+KIND = {k: "visual" for k in ("avc1", "avc3", "hvc1", "hev1", "encv", "av01", "vp08", "vp09")}
+KIND.update({k: "audio" for k in ("mp4a", "enca", "ac-3", "ec-3")})
+WHAT.update({("visual", 0): "SampleEntry reserved(6)", ("visual", 8): "VisualSampleEntry pre_defined(2) reserved(2) pre_defined(12)",
+             ("visual", 36): "VisualSampleEntry reserved(4)", ("visual", 76): "VisualSampleEntry pre_defined(2) = -1",
+             ("audio", 0): "SampleEntry reserved(6)", ("audio", 8): "AudioSampleEntry reserved(8)",
+             ("audio", 20): "AudioSampleEntry pre_defined(2) reserved(2)"})
 
 
 def build(ctx):
@@ -50,8 +71,11 @@ def model_dontcare(model):
     for l in o.splitlines():
         p = l.split()
         if len(p) == 5 and p[0] == "dontcare":
-            out.append({"box": p[1], "version": int(p[2]), "offset": int(p[3]), "length": int(p[4]),
-                        "what": WHAT.get((p[1], int(p[4])), "reserved"), "source": "model"})
+            e = {"box": p[1], "version": int(p[2]), "offset": int(p[3]), "length": int(p[4]),
+                 "what": WHAT.get((p[1], int(p[4])), WHAT.get((KIND.get(p[1], ""), int(p[3])), "reserved")), "source": "model"}
+            if e["version"] < 0:
+                del e["version"]
+            out.append(e)
     return out
 
 
@@ -106,7 +130,62 @@ def run_corr(ctx, exe, model, harness_args, what):
     return lines, mism
 
 
-def run_search(ctx, exe, args, prop):
+# reason given by the model (ocaml/c01_driver.ml reason_str) -> signature.  The reasons are complete (C01_explained), so a
+# signature names one precise defect class of the decoders, each witnessed by a *_refuted theorem.
+REASON_SIG = {
+    "size-field-above-fields": ("leaf-decoders", "trailing-body-bytes-dropped"),
+    "size-field-below-fields": ("leaf-decoders", "header-size-ignored"),
+    "reserved-bits-rewritten": ("leaf-decoders", "model:reserved-bits-outside-the-listed-bytes-rewritten"),
+    "compressorname-padding-zeroed": ("VisualSampleEntry", "model:compressorname-padding-zeroed"),
+    "depth-rewritten-0x0018": ("VisualSampleEntry", "model:depth-rewritten-0x0018"),
+    "samplerate-fraction-dropped": ("AudioSampleEntry", "model:samplerate-fraction-dropped"),
+    "bytes-after-record-dropped": ("avcC", "model:bytes-after-record-dropped"),
+    "trun-data-offset-zero": ("trun", "accepted-but-encode-error"),
+    "moof-trun-data-offset-zero": ("trun", "accepted-but-encode-error"),
+}
+NORMALISATIONS = ("large-size-header-compacted", "trak-reordered")
+
+
+def reclassify(ctx, model, fails):
+    """Mutants made of modelled box types only: the class of a failing input becomes the reason the Coq model gives
+    for this very input (why_box; C01_explained proves that an input without a reason is reproduced bit for bit).
+    An accepted, not reproduced input for which the model has no reason is reported as such (never absorbed)."""
+    ask = [(i, f) for i, f in enumerate(fails)
+           if f[2].startswith("mutant-not-reproduced:") and len(f) > 5 and f[5] == "M1" and not f[3].endswith("...")]
+    if not ask:
+        return
+    res = common.run_model(model, "".join("W\t%d\t%s\n" % (i, f[3]) for i, f in ask))
+    ans = {}
+    for l in res:
+        p = l.split(" ", 2)
+        if p[0] == "WHY":
+            ans[int(p[1])] = p[2] if len(p) > 2 else ""
+    explained = unexplained = 0
+    for i, f in ask:
+        a = ans.get(i, "")
+        reader = f[4].startswith("reader:")
+        if a.startswith("ok "):
+            rs = [x.split(":", 1) for x in a.split(" ", 2)[2].split(";")] if len(a.split(" ", 2)) > 2 and a.split(" ", 2)[2] else []
+            rs = [x for x in rs if len(x) == 2 and x[1] not in NORMALISATIONS] or [x for x in rs if len(x) == 2]
+            mine = [x for x in rs if x[0] == f[1]] or rs
+            if mine:
+                f[1], f[2] = REASON_SIG.get(mine[0][1], (mine[0][0], "model:" + mine[0][1]))
+                explained += 1
+            else:
+                f[2] = ("reader-path-only:" if reader else "unexplained-by-model:") + f[2].split(":", 1)[1]
+                unexplained += 1
+        elif a == "rej" and reader:
+            # the SliceReader path (the model's) rejects this input, the io.Reader path accepts it
+            f[1], f[2] = "leaf-decoders", "reader-path-accepts-what-sr-rejects"
+            explained += 1
+        else:
+            f[2] = "model-says-%s:" % (a.split(" ")[0] or "nothing") + f[2].split(":", 1)[1]
+            unexplained += 1
+    ctx.notes["search_mutants_explained_by_model"] = explained
+    ctx.notes["search_mutants_not_explained"] = unexplained
+
+
+def run_search(ctx, exe, args, prop, model=None):
     rc, so, e = sh2([exe, "search", "-prop", prop] + args, timeout=3000)
     if rc != 0:
         raise common.CheckError("harness search failed: " + e[-1000:])
@@ -128,6 +207,8 @@ def run_search(ctx, exe, args, prop):
         elif f[0] == "NOTE":
             notes.append(f[1:4])
     ctx.notes["search_worker_notes"] = [[n[0], n[1], n[2][:200]] for n in notes[:10]]
+    if model is not None and prop == "c01":
+        reclassify(ctx, model, fails)
     sigs = {}
     for f in fails:
         sigs.setdefault((f[1], f[2]), f)
@@ -141,8 +222,8 @@ def run_search(ctx, exe, args, prop):
 def run(ctx):
     ctx.cov["trusted_base"] = common.TRUSTED_BASE_COMMON + [
         "model: coq/c01/C01Model.v is a hand transcription of mp4/box.go, boxsr.go, container.go, unknown.go and of the "
-        "DecodeXxxSR / EncodeSW / Size of ftyp styp free mdat mfhd tfhd tfdt trun mvhd tkhd sidx trex mdhd hdlr stts, "
-        "moov.AddChild, moof.EncodeSW, edts decode (SliceReader path; io errors not modelled)",
+        "DecodeXxxSR / EncodeSW / Size of every modelled kind (see MANIFEST), avc.DecodeAVCDecConfRec, stsd/dref/sample entry "
+        "child loops, moov.AddChild, moof.EncodeSW, edts decode (SliceReader path; io errors not modelled)",
         "c01_dontcare.json: source=model entries regenerated from the model; source=hand entries written by hand",
         "harness/c01/bx: independent box scanner, harvest of testdata boxes, generators, mutators, masks",
     ]
@@ -158,7 +239,8 @@ def run(ctx):
     lines, mism = run_corr(ctx, exe, model, ["-seed", str(ctx.seed), "-n", str(n), "-kinds", ",".join(leaves + conts)],
                            "DecodeBoxSR + Size + Encode + EncodeSW vs decode/size_box/encode_w/encode_sw of the model")
     ns = ctx.n(4000, 150000)
-    fails = run_search(ctx, exe, ["-seed", str(ctx.seed), "-n", str(ns), "-dontcare", DONTCARE], "c01")
+    fails = run_search(ctx, exe, ["-seed", str(ctx.seed), "-n", str(ns), "-dontcare", DONTCARE,
+                                  "-kinds", ",".join(leaves + conts)], "c01", model=model)
     if mism and not fails_unknown(ctx):
         by_id = {}
         for l in lines:
@@ -174,7 +256,9 @@ def run(ctx):
                        "hand-generated well-formed boxes and trees of the modelled kinds, and structured mutants of both "
                        "(version 0..3, flag bits, counts +-1, large-size header, trailing bytes, truncations, size field +-k, "
                        "random/ff/00 bytes, nested mutations); distinct = distinct input byte strings; "
-                       "search: harvested boxes of ALL types + hand-written seeds for rare types + mutants, through both decoders: "
+                       "search: harvested boxes of ALL types + hand-written seeds for rare types + structured valid variants "
+                       "(esds descriptor orders x size-of-size 1..4 x optional fields, sample entry child permutations, sgpd/uuid) "
+                       "+ mutants, through both decoders: "
                        "masked equality with the input, second decode, third encode")
 
 
@@ -200,7 +284,9 @@ if __name__ == "__main__" and "--gen-dontcare" in sys.argv:
     if model is None:
         raise SystemExit(err)
     cur = json.load(open(DONTCARE)) if os.path.exists(DONTCARE) else {"fields": []}
-    hand = [f for f in cur.get("fields", []) if f.get("source") != "model"]
+    mk = set((f["box"], f.get("version"), f["offset"], f["length"]) for f in model_dontcare(model))
+    hand = [f for f in cur.get("fields", []) if f.get("source") != "model"
+            and (f["box"], f.get("version"), f["offset"], f["length"]) not in mk]
     doc = {
         "comment": "C01 don't-care list. Offsets are relative to the start of the box body (after the 8/16-byte header). "
                    "source=model entries are generated from coq/c01/C01Model.v (the rsv components of each leaf kind; "
